@@ -81,7 +81,7 @@ _string_newlines = {'\n': '\\a ', '\r': '\\d ', '\f': '\\c '}   # \n = 0xa, \r =
 _hexdigits = '0123456789abcdefABCDEF'
 
 
-def string(value):
+def string(value, linecontinuation=True):
     """
     Serialize value with quotes e.g.::
 
@@ -91,7 +91,11 @@ def string(value):
     ``stringvalue`` read exactly the value again: as it is where that is
     safe (``\\\\`` and ``\\g`` stay), as ``\\5c`` in front of a hex
     digit (it would start another escape) and doubled at the end of the
-    value.
+    value.  In front of a newline character it is written as ``\\5c`` and
+    a line continuation: the tokenizer removes backslash + newline from a
+    STRING token after it has resolved the escapes, so backslash + escaped
+    newline alone would vanish.  ``linecontinuation=False`` is for the
+    string inside ``url()``, where the tokenizer does not do that.
     """
     out = []
     # 0: normal, 1: a backslash that starts an escape is pending,
@@ -103,14 +107,16 @@ def string(value):
                 out.append('\\')
                 state = 2
                 continue
-            out.append('\\5c ' if c in _hexdigits else '\\')
+            out.append('\\5c ' if c in _hexdigits else
+                       '\\5c \\\n' if linecontinuation and c in _string_newlines else '\\')
             state = 0
         elif state == 2:
             if c == '\\':
                 out.append('\\')
                 state = 1
                 continue
-            out.append('\\5c ' if c in _hexdigits else '\\')
+            out.append('\\5c ' if c in _hexdigits else
+                       '\\5c \\\n' if linecontinuation and c in _string_newlines else '\\')
             state = 0
         elif c == '\\':
             state = 1
@@ -149,7 +155,7 @@ def uri(value):
         ``"`` => ``url("\"")``
     """
     if _match_forbidden_in_uri(value):
-        value = string(value)
+        value = string(value, False)
     return 'url(%s)' % value
 
 
